@@ -114,7 +114,7 @@ func allChecks() []CheckSpec {
 						c.MaxWallS = 2400
 					}},
 				{Fn: "verifC08CloseVsBlockedIO", Lemma: "the same with blocked I/O: a reader parked in Conn.Read, a Dial parked in AwaitConnect while the candidate's recvLoop is parked in a socket read, the same with the connectivity check's socket write blocking for ever inside a loop task (only a deadline or Close aborts it), and an inbound Binding request arriving at any moment: all of them return, blocked Read/Dial with an error",
-					Bounds: "4 kinds x {Close, GracefulClose}; one local host candidate on a blocking fake socket, one remote; " + c08Common, MustReach: []string{"closed", "connected", "socket-read-was-pending-at-close", "socket-write-was-blocked-at-close", "done"},
+					Bounds: "4 kinds x {Close, GracefulClose}; one local host candidate on a blocking fake socket, one remote; " + c08Common, MustReach: []string{"closed", "connected", "socket-read-was-pending-at-close", "socket-write-was-blocked-at-close", "Conn.Write-was-blocked-in-the-socket", "done"},
 					Cfg: func(c *HarnessCfg, tier int) {
 						c.GoPolicy = "explore"
 						c.ContextBound = 1
